@@ -9,7 +9,8 @@ BENIGN = ["Sender", "Subject", "toto@toto.com", "INBOX", "Folder.Sub", "x y", "l
           "2019-02-26", "hello", "*", "a@b.example", "X-Spam-Flag"]
 SOFT = ["a,b", "a, b", "[x]", "]", "[", "a b,c", "été", "€uro", "ünï", " lead", "trail ",
         "a;b", "{x}", "#c", "(p)", "a:b", ":tagish", "100%", "тест", "日本", "two\r\nlines",
-        "l1\nl2\n"]
+        "l1\nl2\n", "a\n.\nb", ".\nfirst line is a dot", "dot last\r\n.", "..", "."]
+LONG_SIZES = [1022, 1023, 1024, 1025, 1026, 2048, 4096, 5000]
 HOSTILE = ['a"b', 'x"', 'a\\b', 'x\\', '\\"', 'a"; discard; #', '"]; stop; #'[1:],
            'a\nb', 'a\r\nb', 'a" , "b', 'q"] ["z', "a'b", ""]
 
@@ -22,9 +23,24 @@ class Values:
         self.rng = rng
         self.kind = kind
 
+    def long(self):
+        """a value around the 1024-octet quoted-string limit some encoders switch at,
+        built from this kind's own alphabet (so a lone-dot line, a quote, a comma can sit
+        inside it)"""
+        r = self.rng
+        n = r.choice(LONG_SIZES)
+        pool = BENIGN + (SOFT if self.kind != "benign" else []) + (
+            HOSTILE[:10] if self.kind == "hostile" else [])
+        out = "x"
+        while len(out) < n:
+            out += r.choice(pool) + r.choice([" ", "\n", "-"])
+        return out[:n - 1] + "z"
+
     def s(self):
         r = self.rng
         p = r.random()
+        if p > 0.985:
+            return self.long()
         if self.kind == "hostile" and p < 0.5:
             return r.choice(HOSTILE)
         if self.kind in ("soft", "hostile") and p < 0.8:
@@ -40,7 +56,7 @@ MATCH = [":is", ":contains", ":matches"]
 
 class Definition:
     __slots__ = ("conditions", "actions", "matchtype", "tests", "acts", "strings",
-                 "numbers", "exts", "kinds", "_update")
+                 "numbers", "exts", "kinds", "_update", "_names")
 
     def __init__(self):
         self.conditions = []
@@ -296,4 +312,6 @@ def neutralise(d: Definition, chars='"\\'):
     n.kinds = list(d.kinds)
     if getattr(d, "_update", None) is not None:
         n._update = neutralise(d._update, chars)
+    if getattr(d, "_names", None) is not None:
+        n._names = d._names
     return n
